@@ -19,6 +19,9 @@ def build():
         if tag == "F-SIZE":
             build_size(e)
             continue
+        if tag == "F-C16":
+            build_c16(e)
+            continue
         if tag not in hazards.FAMILIES:
             continue
         found = None
@@ -49,6 +52,20 @@ def build():
         with open(path, "w") as f:
             json.dump(payload, f, indent=1, sort_keys=True)
         print(tag, prop, oracle, len(small["steps"]), "steps ->", e["witness"])
+
+
+def build_c16(e):
+    from . import ctl_engine
+    from .ctlsim import CtlSim
+    run = ctl_engine.c16_run(random.Random(0), True, "T", 80, "tcp")
+    run["steps"] = [{"op": "start"}, {"op": "idle"}, {"op": "connect", "c": 1, "w": 80}, {"op": "idle"}]
+    sim = CtlSim(copy.deepcopy(run), {"C16"}).execute()
+    v = next(v for v in sim.viol if v["oracle"] == "handshake_unanswered")
+    payload = {"property": "C16", "oracle": v["oracle"], "signature": "F-C16", "msg": v["msg"], "run": run,
+               "digest": sim.digest(), "engine": "ctl", "finding": "F-C16"}
+    with open(os.path.join(VERIF, e["witness"]), "w") as f:
+        json.dump(payload, f, indent=1, sort_keys=True)
+    print("F-C16 C16 ->", e["witness"])
 
 
 def build_size(e):
